@@ -931,9 +931,33 @@ func runSched(t *SchedTrace, pol sched.Policy, schedSeed uint64, replay [][]sche
 	for _, n := range ro.LazyConst {
 		lazy[n] = true
 	}
+	isFirstUseOnly := func(s int) bool {
+		return s < len(ro.Cold) && ro.Warm[s] == 0 && ro.Cold[s] > 0 && (s >= len(ro.Fresh) || ro.Fresh[s] == 0)
+	}
+	// Per task: how much of the sequential cold run's first-use-only work it
+	// repeated, every statement capped at its cold count (a waiter that polls a
+	// few statements thousands of times has done no construction work).
+	taskWork := make([]uint64, len(res.Counts))
+	for t, c := range res.Counts {
+		for s := range field.VerifSites {
+			if !isFirstUseOnly(s) || s >= len(c) {
+				continue
+			}
+			n := c[s]
+			if n > ro.Cold[s] {
+				n = ro.Cold[s]
+			}
+			taskWork[t] += uint64(n)
+		}
+	}
+	// Per lazily built constant: the tasks that executed one of its first-use-only
+	// write sites.
+	writers := map[string]map[int]bool{}
+	writeSite := map[string]int{}
+	repeated := map[string]bool{} // some write site of the constant ran at least twice as often as in the cold run
 	firstUse := 0
 	for s, sd := range field.VerifSites {
-		if !sd.Write || s >= len(ro.Cold) {
+		if !sd.Write || !isFirstUseOnly(s) {
 			continue
 		}
 		// the written field (pkg.var.field) or, failing that, the whole variable must
@@ -947,19 +971,53 @@ func runSched(t *SchedTrace, pol sched.Policy, schedSeed uint64, replay [][]sche
 				continue
 			}
 		}
-		if ro.Warm[s] == 0 && ro.Cold[s] > 0 && (s >= len(ro.Fresh) || ro.Fresh[s] == 0) {
-			firstUse++
-			var conc uint32
-			tasksTouching := 0
-			for _, c := range res.Counts {
+		firstUse++
+		var conc uint32
+		for _, c := range res.Counts {
+			if s < len(c) {
 				conc += c[s]
-				if c[s] > 0 {
-					tasksTouching++
+			}
+		}
+		if conc >= 2*ro.Cold[s] {
+			repeated[root] = true
+		}
+		for t, c := range res.Counts {
+			if s < len(c) && c[s] > 0 {
+				if writers[root] == nil {
+					writers[root] = map[int]bool{}
+				}
+				writers[root][t] = true
+				if _, ok := writeSite[root]; !ok {
+					writeSite[root] = s
 				}
 			}
-			if conc >= 2*ro.Cold[s] && excess >= 1000 {
-				so.Violation = viol("first-use-construction-not-exactly-once", sd.File,
-					fmt.Sprintf("the lazily built constant %s was constructed more than once: the write at %s executed %d times (by %d tasks) under this schedule, %d times in a sequential cold run, and %d first-use-only statements were repeated in all", sd.Root, siteName(s), conc, tasksTouching, ro.Cold[s], excess))
+		}
+	}
+	// A. Some first-use-only statement that writes a lazily built constant ran at
+	// least twice as often as in the sequential cold run (tasks that build disjoint
+	// parts of a sharded table repeat nothing), AND two different tasks each (i)
+	// executed a first-use-only statement that writes that constant and (ii)
+	// repeated at least half of the whole first-use-only work of the sequential cold
+	// run, which itself has the size of a construction. Idempotent re-publication by every slow-path caller,
+	// contenders that call into the initialiser and wait, and a second user
+	// initialising pooled scratch do (i) or part of (ii), never both.
+	if coldWork >= 1000 {
+		var roots []string
+		for r := range writers {
+			roots = append(roots, r)
+		}
+		sort.Strings(roots)
+		for _, root := range roots {
+			var builders []int
+			for t := range res.Counts {
+				if writers[root][t] && taskWork[t]*2 >= coldWork {
+					builders = append(builders, t)
+				}
+			}
+			if len(builders) >= 2 && repeated[root] {
+				s := writeSite[root]
+				so.Violation = viol("first-use-construction-not-exactly-once", field.VerifSites[s].File,
+					fmt.Sprintf("the lazily built constant %s was constructed more than once: tasks %v each executed a first-use-only write of it (e.g. %s) and each repeated at least half of the %d first-use-only statements of a sequential cold run (%d first-use-only statements were repeated in all)", root, builders, siteName(s), coldWork, excess))
 				return so
 			}
 		}
